@@ -18,13 +18,15 @@ from .common import set_interrupts, COMPONENTS_BASE, run_sim, new_sim, finish_ou
 
 PID = "C08"
 LEVEL = "fault_enumeration"
-BUDGET = {"quick": 2500, "thorough": 40000}
+BUDGET = {"quick": 8000, "thorough": 120000}
 RULE = (
     "each run samples a block program: <=6 ops over {apply tool T to the current scoped handle (16 tools of C01, "
     "further sources real), take j, then close / exhaust / abandon(+gc); pull the handle directly; enter a nested "
     "scoped_iter(handle) (depth <=3); leave the innermost scope} on an underlying iterator of 0..8 items (async "
-    "generator, class-based with/without aclose, async iterable, sync iterable), and enumerates its exit points: "
-    "fall-through, exception after op i for every i, cancel at suspension c for every c of the fault-free run. "
+    "generator, class-based with/without aclose, async iterable, sync iterable, a proxy forwarding aclose dynamically), "
+    "the handle standing in for any one of the tool's iterable arguments, and enumerates its exit points: "
+    "fall-through, exception after op i for every i, cancel at suspension c for every c of the fault-free run "
+    "(one program in four: all of them; the others: fall-through plus three sampled exit points). "
     "Oracle: items obtained by every completed tool application == the stdlib tools over one shared sync iterator; "
     "underlying closed 0 times inside the block and exactly once at the outermost exit; a left scope's handle yields "
     "nothing, outer handles keep working; the same exception leaves the block. Non-trivial: >=2 tool applications "
@@ -77,7 +79,7 @@ def prepare(ch):
     prep.interrupt = ch.draw(4)
     g = Gen(ch, cfg, "")
     items = g.items(ch.draw(9), falsy=True)
-    prep.src = g.src(items, ("agen", "aiter_cls", "aiterable", "aiter_noclose", "agen", "aiter_full", "sync_iter", "list"))
+    prep.src = g.src(items, ("agen", "aiter_cls", "aiterable", "aiter_noclose", "agen", "aiter_full", "sync_iter", "list", "aiter_proxy"))
     # the iterable handed to scoped_iter may itself be a borrowed handle: the scope must end *that* handle at exit
     # (and, being only borrowed, what is underneath stays open)
     prep.borrowed = prep.src.flavour in ("agen", "aiter_cls", "aiter_full") and ch.chance(1, 6)
@@ -113,7 +115,8 @@ def prepare(ch):
                 spec.srcs.pop()
             if spec.p.get("alias"):
                 spec.p["alias"] = None
-            ops.append(("tool", spec, ch.draw(5), ch.draw(3)))
+            # the handle takes the place of one of the tool's iterable arguments (not always the first)
+            ops.append(("tool", spec, ch.draw(5), ch.draw(3), ch.draw(len(spec.srcs))))
         elif kind == 1:
             ops.append(("pull", ch.between(1, 2)))
         elif kind == 2 and depth < 3:
@@ -141,14 +144,18 @@ def fault_lists(prep, faults):
         out.append([1, i])
     for c in range(1, prep.n_susp + 1):
         out.append([2, c])
-    return out
+    if faults.draw(4) == 0 or len(out) <= 4:
+        return out
+    # three scenarios in four: the fault-free execution and three sampled crash points only, so that
+    # more distinct block histories are explored for the same cost
+    return [out[0]] + [out[1 + faults.draw(len(out) - 1)] for _ in range(3)]
 
 
 def describe_ops(ops):
     out = []
     for op in ops:
         if op[0] == "tool":
-            out.append(["tool", op[1].describe(), "take %d" % op[2], ("close", "exhaust", "abandon")[op[3]]])
+            out.append(["tool", op[1].describe(), "take %d" % op[2], ("close", "exhaust", "abandon")[op[3]], "handle is argument %d" % op[4]])
         else:
             out.append(list(op))
     return out
@@ -240,14 +247,15 @@ def run_block(prep, st, mode, pos, interrupts):
             op = ops[i]
             h = handles[-1]
             if op[0] == "tool":
-                _, spec, j, then = op
+                _, spec, j, then, hpos = op
                 tool = TOOLS[spec.tool]
                 w = World(sim, own_log=True)
-                others = [make_async_source(w, p).obj for p in spec.srcs[1:]]
+                others = [make_async_source(w, p).obj for n_, p in enumerate(spec.srcs) if n_ != hpos]
                 fns = [make_async_fn(w, p).obj if p is not None else None for p in spec.fns]
                 app = {"op": i, "tool": spec.tool, "items": [], "end": None}
                 res["apps"].append(app)
-                it = tool.a(L, spec, [h] + others, fns)
+                others.insert(hpos, h)
+                it = tool.a(L, spec, others, fns)
                 del others
                 try:
                     for _ in range(j):
@@ -358,15 +366,16 @@ def reference(prep, upto_apps):
         while i < len(ops):
             op = ops[i]
             if op[0] == "tool":
-                _, spec, j, then = op
+                _, spec, j, then, hpos = op
                 tool = TOOLS[spec.tool]
                 w = World()
-                others = [make_ref_source(w, p).obj for p in spec.srcs[1:]]
+                others = [make_ref_source(w, p).obj for n_, p in enumerate(spec.srcs) if n_ != hpos]
+                others.insert(hpos, shared)
                 fns = [make_ref_fn(w, p).obj if p is not None else None for p in spec.fns]
                 app = {"op": i, "tool": spec.tool, "items": [], "end": None}
                 apps.append(app)
                 try:
-                    it = iter(tool.r(spec, [shared] + others, fns))
+                    it = iter(tool.r(spec, others, fns))
                 except (ValueError, TypeError) as err:
                     app["end"] = type(err).__name__
                     it = None
@@ -496,7 +505,7 @@ def run_prepared(prep, st, ctx):
                 closed_under = src.n_aclose > 0 or (fl == "agen" and src.finalised and not src.exhausted and not src.killed)
                 if closed_under:
                     out.violate("C08.closed_through_a_borrowed_handle", sig, describe())
-            elif fl in ("aiter_cls", "aiterable", "aiter_full"):
+            elif fl in ("aiter_cls", "aiterable", "aiter_full", "aiter_proxy"):
                 if src.n_aclose != 1:
                     out.violate("C08.underlying_not_closed_exactly_once", sig + ("count=%d" % src.n_aclose,), describe())
             elif fl == "agen" and not prep.borrowed:
@@ -536,7 +545,7 @@ def run_prepared(prep, st, ctx):
                 out.probes["cancel_at_block_level_before_first_pull"] = 1
     out.fault_free = mode == 0
     out.nontrivial = (ntools >= 2 or nested) and reached
-    out.shape = (fl, prep.borrowed, len(prep.src.items), tuple((o[0], o[1].shape_key(), o[2], o[3]) if o[0] == "tool" else o
+    out.shape = (fl, prep.borrowed, len(prep.src.items), tuple((o[0], o[1].shape_key(), o[2], o[3], o[4]) if o[0] == "tool" else o
                                                 for o in prep.ops), modename, pos)
     if ctx.want_sample:
         out.sample = describe()
